@@ -1,3 +1,9 @@
 fn main() {
+    // `c01 --counts [quick|thorough]`: programs per family (sizing aid)
+    let args: Vec<String> = std::env::args().collect();
+    if args.get(1).map(|s| s.as_str()) == Some("--counts") {
+        c01::print_counts(args.get(2).map(|s| s.as_str()) == Some("thorough"));
+        return;
+    }
     c01::run()
 }
